@@ -82,9 +82,18 @@ def body(run, sym, sc):
     i0, j0 = 1 % nx, (ny - 1)
     g, cF, fF = kindl.sym_solve(sym, sc0, q, footprint=True, meas_pt=(i0 * dx, j0 * dy), zprof=(z, prof))
     cF, fF = kindl.lv3(cF, sc), kindl.lv3(fF, sc)
+    g, cM, fM = kindl.sym_solve(sym, sc0, q, srf_bg_conc=bg, meas_pt=(i0 * dx, j0 * dy), zprof=(z, prof))
+    cM, fM = kindl.lv3(cM, sc), kindl.lv3(fM, sc)
     for name, V in variants(sc0, prof):
         scv = V["sc"]
         q2 = V["q"](q).view(af.SymArr)
+        # dispersion mode with a non-zero (re-centring) measurement point
+        i2, j2 = V["meas"](i0, j0)
+        g, c4, f4 = kindl.sym_solve(sym, scv, q2, srf_bg_conc=bg, meas_pt=(i2 * scv["dx"], j2 * scv["dy"]), zprof=(z, V["prof"]))
+        c4, f4 = kindl.lv3(c4, scv, V["shape"]), kindl.lv3(f4, scv, V["shape"])
+        scn = dict(sc0, part="a-recentred", variant=name, point=[i0, j0])
+        for nm, a, b in ((name + "_recentred_flux", fM, V["out"](f4)), (name + "_recentred_conc", cM, V["out"](c4))):
+            rec(nm, scn, kindl.forms_equal(run, sp, masked_forms(a, sp, my, mx), masked_forms(b, sp, my, mx), nm, scn))
         g, c2, f2 = kindl.sym_solve(sym, scv, q2, srf_bg_conc=bg, zprof=(z, V["prof"]))
         c2, f2 = kindl.lv3(c2, scv, V["shape"]), kindl.lv3(f2, scv, V["shape"])
         # bring the variant's output back to the original orientation: the maps are involutions
@@ -156,12 +165,15 @@ def replay(rec):
         full = not (nlx <= nx and nly <= ny)
         mx, my = keep_mask(nx, nx if full else nlx), keep_mask(ny, ny if full else nly)
         fp = "fp" in ob
+        rc = "recentred" in ob
         kw = dict(footprint=True, meas_pt=(sc["point"][0] * dx, sc["point"][1] * dy)) if fp else dict(srf_bg_conc=bg)
+        if rc:
+            kw["meas_pt"] = (sc["point"][0] * dx, sc["point"][1] * dy)
         g, c, f = kindl.real_solve(sc, q, zprof=(z, prof), **kw)
         scv = V["sc"]
-        if fp:
+        if fp or rc:
             i2, j2 = V["meas"](*sc["point"])
-            kw = dict(footprint=True, meas_pt=(i2 * scv["dx"], j2 * scv["dy"]))
+            kw["meas_pt"] = (i2 * scv["dx"], j2 * scv["dy"])
         g, c2, f2 = kindl.real_solve(scv, V["q"](q), zprof=(z, V["prof"]), **kw)
         c, f = kindl.lv3(c, sc), kindl.lv3(f, sc)
         c2, f2 = V["out"](kindl.lv3(c2, scv, V["shape"])), V["out"](kindl.lv3(f2, scv, V["shape"]))
@@ -176,7 +188,8 @@ def replay(rec):
 CANARIES = [
     ("top_bc_uses_Kx_for_y", {"solver": [("KyKzinv = Ky[nz - 1] * Kzinv", "KyKzinv = Kx[nz - 1] * Kzinv")]}),
     ("sweep_uses_Kx_for_y", {"solver": [("Ti = -(Kx[i] * Lx**2 + Ky[i] * Ly**2)", "Ti = -(Kx[i] * Lx**2 + Kx[i] * Ly**2)")]}),
-    ("recentre_uses_xmx_for_y", {"solver": [("1j * v[nz - 1] * Kzinv * Ly[msk]", "1j * v[nz - 1] * Kzinv * Lx[msk]")]}),
+    ("top_bc_v_with_Lx", {"solver": [("1j * v[nz - 1] * Kzinv * Ly[msk]", "1j * v[nz - 1] * Kzinv * Lx[msk]")]}),
+    ("recentre_uses_xmx_for_y", {"solver": [("Ly * (ym - ymx / 2)", "Ly * (ym - xmx / 2)")]}),
     ("dy_from_xmx", {"solver": [("dx, dy = xmx / nx, ymx / ny", "dx, dy = xmx / nx, xmx / ny")]}),
     ("absolute_length_in_top_bc", {"solver": [("+ KyKzinv * Ly[msk] ** 2", "+ KyKzinv * Ly[msk] ** 2 + 1e-4")]}),
 ]
